@@ -54,6 +54,27 @@ where T: Types
 
     /// Shared with `FlushWorker`; stores the highest completed seq.
     done_seq: Arc<AtomicU64>,
+
+    /// The FlushWorker thread; joined on drop so that nothing touches the
+    /// directory any more once the WAL is gone.
+    worker: Option<std::thread::JoinHandle<()>>,
+}
+
+impl<T> Drop for RaftLogWAL<T>
+where T: Types
+{
+    /// Close the request channel and wait for the FlushWorker to finish the
+    /// requests that are still queued (writes, syncs, chunk removals).
+    fn drop(&mut self) {
+        // Dropping the only sender disconnects the channel; the worker drains
+        // what is queued and quits.
+        let (closed_tx, _) = std::sync::mpsc::sync_channel(1);
+        drop(std::mem::replace(&mut self.flush_tx, closed_tx));
+
+        if let Some(handle) = self.worker.take() {
+            let _ = handle.join();
+        }
+    }
 }
 
 impl<T> RaftLogWAL<T>
@@ -89,7 +110,7 @@ where T: Types
         let (flush_tx, rx) = std::sync::mpsc::sync_channel(1024);
         let worker = FlushWorker::new(rx, file_entry, cache, done_seq.clone());
 
-        worker.spawn();
+        let worker = worker.spawn();
 
         Self {
             config,
@@ -98,6 +119,7 @@ where T: Types
             flush_tx,
             sent_seq: 0,
             done_seq,
+            worker: Some(worker),
         }
     }
 
